@@ -10,7 +10,9 @@ CLAIM = {
           "CheckIntegrity/Reset calls no step panics and no loop hangs (C03_decode_total, C03_api_total), errors are sticky (C03_sticky); the size-before-wide-read, "
           "valid-base-type-before-division and fuel arguments are the bounds the Go code relies on. The typed-file listener, the raw decoder, DecodeWithContext, listeners and "
           "one-byte readers are exercised by the Go oracle under recover() and a watchdog on the same inputs (no theorem in this file: C13 proves the typed Reset total, C16 models "
-          "the raw decoder).",
+          "the raw decoder). Raw decoder: for every byte stream every slice it takes from its fixed array has length <= 130051 (C03_raw_slices_fit, "
+          "C03_raw_lengths_bounded) and the array declared in raw.go, translated on every run, is that long (C03_raw_array_suffices). A deterministic boundary corpus (largest "
+          "possible message; every declared size 0..9 x every base type x both byte orders for eight well-known fields) runs first.",
   "note": NOTE_COMMON + " Component expansion uses primitive floats (never a source of Panic). Float containers in makeBits and >4 GiB streams are outside the model."}
 
 
@@ -19,7 +21,7 @@ def run(ctx):
                        "truncation, field size / base type bytes, header fields, duplicated and dropped record slices, developer/compressed bits, appended garbage, chained pairs) "
                        "through every entry point with random options, listeners and one-byte readers; non-trivial = longer than 14 bytes; distinct by bytes")
     ctx.cov["checker_cmd"] = "coq/build.sh Props/C03.vo Run/RunDecode.vo Run/RunC07.vo; coqc Props/C03.v; coqc cases_C03_*.v (vm_compute)"
-    tr = ctx.prepare(parts=["factory", "dump-consts", "crc", "decoder-reset"])
+    tr = ctx.prepare(parts=["factory", "dump-consts", "crc", "decoder-reset", "decconst"])
     ok, _ = ctx.coq(["Props/C03.vo", "Run/RunDecode.vo", "Run/RunC07.vo"])
     if ok:
         ctx.props()
